@@ -326,7 +326,21 @@ fn c20_cands(rng: &mut crate::rng::Rng, _pre: &crate::snapshot::Snap, _t: Tier) 
         let code = *rng.pick(&["B", "0", "U", "V"]);
         let mode = *rng.pick(&["(", ")"]);
         let n = *rng.pick(&[15usize, 16, 17, 31, 32, 33, 48]);
-        let kind = rng.below(3);
+        let kind = rng.below(4);
+        if kind == 3 {
+            // composable pairs, singletons and conjoining jamo next to characters the set maps:
+            // nothing may be composed, reordered or normalised BEFORE the table lookup
+            let mut t = String::new();
+            for _ in 0..3 + rng.usize(6) {
+                match rng.below(4) {
+                    0 => t.push_str(*rng.pick(&["a\u{301}", "e\u{301}", "q\u{308}", "\u{212b}", "\u{1112}\u{1161}\u{11ab}", "\u{1161}", "A\u{30a}", "\u{e9}"])),
+                    1 => t.push(gen::uchar(rng)),
+                    _ => t.push(char::from_u32(rng.range(0x20, 0xff)).unwrap()),
+                }
+            }
+            v.push(Cand { ops: vec![Op::Api(DefineCharset(code.into(), mode.into())), Op::Api(if mode == ")" { ShiftOut } else { ShiftIn }), Op::Api(Draw(t))] });
+            continue;
+        }
         let s: String = (0..n)
             .map(|i| match kind {
                 0 => char::from_u32(rng.range(0x01, 0x7f)).unwrap(),
